@@ -99,6 +99,10 @@ fn corpus() -> Vec<(&'static str, Vec<u8>)> {
         ("space-values", b"{\"a\":\" \",\"ami\":\"  \"}".to_vec()),
         ("escaped-unicode", b"{\"ami\":\"\\u0986\\u09ae\\u09bf\"}".to_vec()),
         ("lone-surrogate", b"{\"a\":\"\\ud800\"}".to_vec()),
+        // valid documents whose replacements are neither ASCII nor Bengali letters: danda, currency sign, curved quotes, an
+        // emoji, a lone non-joiner, a letter of another script, a control character (keys are words the battery types)
+        ("values-non-ascii-non-bengali", "{\"a\":\"।\",\"k\":\"₹\",\"e\":\"😀\",\"am\":\"“x”\",\"as\":\"\u{200c}\",\"ami\":\"Ħé\",\"word7\":\"\\u0007\\u001b\"}".as_bytes().to_vec()),
+        ("values-mixed-scripts", "{\"a\":\"aআ\",\"k\":\"ক-k\",\"e\":\"e😀e\",\"ami\":\"আমি ami\",\"as\":\"\\u09cd\"}".as_bytes().to_vec()),
     ];
     let mut deep = Vec::new();
     deep.extend(std::iter::repeat(b'[').take(200));
@@ -612,9 +616,13 @@ impl Prop for C10 {
                     continue;
                 }
                 // a later save that succeeds (another word, same context) must write every earlier entry out again
-                match sess.type_text_protocol(if learn == "tumi" { "kotha" } else { "tumi" }) {
+                let later_word = if learn == "tumi" { "kotha" } else { "tumi" };
+                let mut later_choice = String::new();
+                match sess.type_text_protocol(later_word) {
                     Ok(Some(s)) if !s.is_lonely() && s.len() > 1 => {
-                        let _ = sess.commit((s.previously_selected_index() + 1) % s.len());
+                        let idx = (s.previously_selected_index() + 1) % s.len();
+                        later_choice = s.get_suggestions()[idx].clone();
+                        let _ = sess.commit(idx);
                     }
                     _ => {
                         let _ = sess.finish();
@@ -626,6 +634,20 @@ impl Prop for C10 {
                 match Sess::new(spec, &root) {
                     Err(p) => out.violation("failed-save-loses-at-most-one-choice", format!("c10:panic@{}:restart-after-failed-save", p.loc), case(), "a new context can be created".into(), format!("panic at {}", p.loc)),
                     Ok(n) => {
+                        // the choice learned after the fault was removed is saved like any other (one failed save does not
+                        // switch saving off)
+                        if !later_choice.is_empty() {
+                            if let Ok(Some(s)) = n.type_text_protocol(later_word) {
+                                let _ = n.finish();
+                                let got = s.get_suggestions().get(s.previously_selected_index()).cloned().unwrap_or_default();
+                                if got != later_choice {
+                                    out.violation("failed-save-loses-at-most-one-choice", format!("c10:choice-learned-after-the-failed-save-is-lost:{name}"), case(),
+                                                  format!("{later_choice:?} pre-selected for {later_word:?} by a new context (it was learned after the fault was removed)"), format!("{got:?}; store on disk now: {:?}", String::from_utf8_lossy(&content)));
+                                }
+                            } else {
+                                let _ = n.finish();
+                            }
+                        }
                         for (w, want) in [("ami", "আমই"), ("as", "আশ"), ("sesh", "শেষ")] {
                             match n.type_text_protocol(w) {
                                 Ok(Some(s)) => {
